@@ -28,7 +28,8 @@ ASSUMPTIONS = COMMON_ASSUMPTIONS + ["rows of a trace are in arrival order (preco
 
 def check_cursor(ctx, num=1):
     P = ctx.P
-    f = P.fn(WL, "WorkloadTrace.run_one_tick")
+    from ..util import desugar_extend
+    f = desugar_extend(P.fn(WL, "WorkloadTrace.run_one_tick"))   # xs.extend(e for v in it) is the element-wise loop it abbreviates
     ctx.touch(f)
     g = cfg_of(f, subst_env=False)
     allowed = {"WorkloadTrace.__init__", "WorkloadTrace.advance_to_next_batch"}
@@ -89,7 +90,7 @@ def check_cursor(ctx, num=1):
     incs = [n for n in own_nodes(f.node) if isinstance(n, ast.AugAssign) and self_attr(n.target, "current_tick")]
     ok = len(incs) == 1 and isinstance(incs[0].op, ast.Add) and isinstance(incs[0].value, ast.Constant) and incs[0].value.value == 1 \
         and g.path_avoiding(g.entry.id, {g.exit.id}, {g.node_of(incs[0]).id}) is None and not any(a for a in _anc(incs[0]) if isinstance(a, (ast.While, ast.For)))
-    otherw = [w for w in attr_writes(P, "current_tick") if w.fn.qual.startswith("WorkloadTrace") and w.node not in incs and w.fn.qual != "WorkloadTrace.__init__"]
+    otherw = [w for w in attr_writes(P, "current_tick") if w.fn.qual.startswith("WorkloadTrace") and not any(getattr(w.node, "lineno", -1) == i_.lineno and stmt_text(w.node) == stmt_text(i_) for i_ in incs) and w.fn.qual != "WorkloadTrace.__init__"]
     ctx.ob(num, "K3", "the replay clock advances by exactly one tick per call, on every path, after the deliveries of that tick", ok and not otherw and
            (not whiles or g.path_avoiding(g.node_of(incs[0]).id, {g.node_of(whiles[0]).id}, set()) is None) if incs else False, f, incs[0] if incs else f.node,
            construct="self.current_tick += 1", detail=f"{[stmt_text(n) for n in incs]}; other writers: {[repr(w) for w in otherw]}")
@@ -174,15 +175,30 @@ def check_flush(ctx, num=3, only=None):
                    detail=f"facts at the append: {sorted(norm.show(z) for z in fs)}")
         # yield-before-reset: a group start that is not the first must be preceded by a yield of the old group in the same iteration
         ys = [n for n in g.nodes if n.is_yield and n.ast is not None and any(n.ast is z for z in ast.walk(lp))]
+        IN_noyield = g.facts(blocked={y.id for y in ys})
+        nones = {n.targets[0].id for n in f.node.body if isinstance(n, ast.Assign) and len(n.targets) == 1 and isinstance(n.targets[0], ast.Name)
+                 and isinstance(n.value, ast.Constant) and n.value.value is None}
         for s in starts:
-            fs = g.facts_at(poolmod.block_of(s)[0])
-            first = any(z[0] == "cmp" and z[1] == "is" and z[3] == "None" for z in fs)
-            if first:
-                continue
-            sid = g.node_of(s).id
-            pre = g.path_avoiding(hid, {sid}, {y.id for y in ys}, edge_ok=lambda a, b, lab: not (a == hid and lab == "done"))
-            ctx.ob(num, "K16", f"{meth}: when the key changes the finished group is yielded before the next group is started", pre is None, f, s,
-                   detail="a yield lies on every path to the restart" if pre is None else g.describe_path(pre))
+            # on every way to a group start that passes no yield, nothing has been collected yet (the key variable is still None)
+            fs = IN_noyield.get(g.node_of(s).id)
+            okp = fs is None
+            if fs is not None:
+                # look at s and at the plain assignments just before it in its block (the key variable is typically set right there)
+                blk = poolmod.block_of(s)
+                i_ = [k for k, b_ in enumerate(blk) if b_ is s][0]
+                pts = [s]
+                while i_ > 0 and isinstance(blk[i_ - 1], (ast.Assign, ast.AnnAssign)) and not any(isinstance(z, (ast.Yield, ast.YieldFrom)) for z in ast.walk(blk[i_ - 1])):
+                    i_ -= 1
+                    pts.append(blk[i_])
+                for p_ in pts:
+                    fp = IN_noyield.get(g.node_of(p_).id)
+                    if fp is not None and any(norm.entails(fp, ("cmp", "is", k_, "None")) for k_ in nones):
+                        okp = True
+                if okp:
+                    continue    # the start of the very first group
+            pre = None if okp else g.path_avoiding(hid, {g.node_of(s).id}, {y.id for y in ys}, edge_ok=lambda a, b, lab: not (a == hid and lab == "done"))
+            ctx.ob(num, "K16", f"{meth}: when the key changes the finished group is yielded before the next group is started", okp, f, s,
+                   detail="a yield lies on every path to the restart" if okp else (g.describe_path(pre) if pre else "a restart without a yield is possible after the first group"))
         # flush after the loop
         after = [n for n in g.nodes if n.is_yield and n.ast is not None and not any(n.ast is z for z in ast.walk(lp)) and getattr(n.ast, "lineno", 0) > lp.lineno]
         okf = False
